@@ -17,9 +17,26 @@ ALPHA = (0x00, 0x21, 0x22, 0x4F, 0x50, 0x7D, 0x7E, 0x7F, 0xFF)
 FILLERS = (0x41, 0x7A, 0x00)
 
 
+def _guard(fn):
+    """A call into the code under test that raises is an observation, not a harness failure: the buffer is replaced by a
+    marker no oracle accepts and the exception text is returned (the functions are documented to return None)."""
+
+    def call(buf):
+        try:
+            return fn(buf)
+        except Exception as e:  # noqa: BLE001
+            try:
+                buf[:] = b"\x00RAISED\x00"
+            except Exception:  # noqa: BLE001
+                pass
+            return f"raised {type(e).__name__}: {e}"
+
+    return call
+
+
 def _fns():
     m = loader.lib("eolib.data.string_encoding_utils")
-    return m.encode_string, m.decode_string
+    return _guard(m.encode_string), _guard(m.decode_string)
 
 
 def check_one(s):
